@@ -76,6 +76,11 @@ TIERS = {
 SCALAR_CONTAINERS = ("float", "np.float64", "0-d array", "1-d array len 1")
 ARRAY_CONTAINERS = ("ndarray", "Series", "Series/shuffled-index")
 GRID = 150
+# K_p so close to 1 that Seeger-Beste's vectorised secant leaves entries unconverged and the per-element retry runs.
+# Root accuracy there belongs to the recorded narrow-bracket finding; these shards judge ONLY the container clause,
+# and only grossly (an element that received another element's answer).
+RETRY_KP = (1.0001,)
+GROSS = 0.01      # 1 % of the load: orders of magnitude above the worst accepted solver inaccuracy (~1e-4 for K_p -> 1)
 
 
 def bounds(tier):
@@ -96,17 +101,38 @@ def shards(tier):
                     continue        # quantifier: Seeger-Beste K_p > 1
                 for T in t["tolerances"]:
                     out.append({"law": law, "mat": list(mat), "K_p": kp, "factors": list(t["factors"]), "tolerances": [T]})
+    for mat in MATERIALS[:t["materials"]]:
+        for kp in RETRY_KP:
+            out.append({"law": "SeegerBeste", "mat": list(mat), "K_p": kp, "factors": list(t["factors"]),
+                        "tolerances": [T for T in t["tolerances"] if T >= 1e-8], "gross_only": True})
     return out
 
 
 # ------------------------------------------------------------------------------------------------- helpers
 def _law(g):
+    """The law object under test.  via == 'setters': the object is not fresh - it was constructed with another K' and
+    K_p, every solver method was used once (anything an implementation may cache is filled), and only then K' and K_p
+    were assigned through the public setters.  The property speaks about the law with its *current* parameters."""
     if g["law"] == "ExtendedNeuber":
         from pylife.materiallaws.notch_approximation_law import ExtendedNeuber as cls
     else:
         from pylife.materiallaws.notch_approximation_law_seegerbeste import SeegerBeste as cls
-    _, E, K, n, _ = g["mat"]
-    return cls(E, K, n, g["K_p"])
+    _, E, K, n, rm = g["mat"]
+    if g.get("via") != "setters":
+        return cls(E, K, n, g["K_p"])
+    law = cls(E, 2.0 * K, n, g["K_p"] + 1.5)
+    import warnings
+    with warnings.catch_warnings():
+        warnings.simplefilter("ignore")
+        for meth, arg in (("stress", 0.5 * rm), ("stress_secondary_branch", rm), ("load", 0.4 * rm), ("load_secondary_branch", 0.8 * rm)):
+            for a in (arg, np.array([arg, -0.5 * arg])):
+                try:
+                    getattr(law, meth)(a)
+                except Exception:  # noqa: BLE001   (the warm-up is not judged)
+                    pass
+    law.K = K
+    law.K_p = g["K_p"]
+    return law
 
 
 def _methods(g):
@@ -146,6 +172,10 @@ def _make_array(container, xs):
     if container == "Series":
         return pd.Series(np.array(xs, dtype=float))
     n = len(xs)
+    if container == "Series/index-1..n":
+        return pd.Series(np.array(xs, dtype=float), index=pd.RangeIndex(1, n + 1))
+    if container == "Series/reversed-index":
+        return pd.Series(np.array(xs, dtype=float), index=list(range(n - 1, -1, -1)))
     return pd.Series(np.array(xs, dtype=float), index=[(7 * i + 3) % n if math.gcd(7, n) == 1 else n - 1 - i for i in range(n)])
 
 
@@ -219,7 +249,7 @@ class Ref:
 
 
 def _key(g, meth, clause):
-    return "C06/%s/%s/%s" % (g["law"], meth, clause)
+    return "C06/%s/%s/%s%s" % (g["law"], meth, clause, "/after-setters" if g.get("via") == "setters" else "")
 
 
 def _tag(R, L):
@@ -407,6 +437,13 @@ def probe_array(law, g, R, probe, acc, cache=None):
             if key not in seen:
                 seen.add(key)
                 out.append((key, {"load": L, "container": probe["container"], "which": probe["which"], "got": x, "python_float": v0}))
+        elif st0 == "ok" and math.isfinite(x) and math.isfinite(v0) and abs(x - v0) > GROSS * max(abs(L), abs(v0)):
+            # where the fine comparison does not apply (a value fails the root clause): an element that got another
+            # element's answer is still off by far more than any solver inaccuracy
+            key = _key(g, fmeth, "containers-disagree-grossly")
+            if key not in seen:
+                seen.add(key)
+                out.append((key, {"load": L, "container": probe["container"], "which": probe["which"], "got": x, "python_float": v0}))
     if probe["which"] in ("axis", "axis+0"):
         out += _shape(g, R, fmeth, loads, v.tolist(), T, probe["container"])
         e = _flat(getattr(law, smeth)(raw, arg))
@@ -492,11 +529,67 @@ def run_probe(law, g, R, probe, acc, cache=None):
     return probe_shape(law, g, R, probe, acc, cache)
 
 
-def run_shard(shard):
-    acc = Acc()
+GROSS_CONTAINERS = ("ndarray", "Series", "Series/shuffled-index", "Series/index-1..n", "Series/reversed-index")
+
+
+def run_gross(shard, acc):
+    """container clause only, in the regime where the per-element retry of non-converged entries runs"""
     for T in shard["tolerances"]:
         for branch in BRANCHES:
-            g = {"law": shard["law"], "mat": shard["mat"], "K_p": shard["K_p"], "factors": shard["factors"], "T": T, "branch": branch}
+            g = {"law": shard["law"], "mat": shard["mat"], "K_p": shard["K_p"], "factors": shard["factors"], "T": T, "branch": branch,
+                 "gross_only": True}
+            law = _law(g)
+            for which in ("axis", "axis-small-first"):
+                for container in GROSS_CONTAINERS:
+                    acc.cases += 1
+                    probe = {"p": "gross", "container": container, "which": which}
+                    found = probe_gross(law, g, probe, acc)
+                    if not found:
+                        acc.nontrivial += 1
+                    for key, detail in found:
+                        acc.violation(key, {"group": g, "probe": probe}, detail)
+
+
+def probe_gross(law, g, probe, acc):
+    fmeth = _methods(g)[0]
+    T = g["T"]
+    loads = _axis(g, False)
+    if probe["which"] == "axis-small-first":
+        loads = sorted(loads, key=abs)              # an elastic load first: position 0 converges in the vectorised pass
+    st, v = _call(getattr(law, fmeth), _make_array(probe["container"], loads), T)
+    acc.evaluations += 1
+    if st == "solver-raised":
+        acc.count("solver-raised/%s/%s" % (g["law"], fmeth))
+        return []
+    if st == "exc":
+        if isinstance(v, (KeyError, IndexError)):
+            return [(_key(g, fmeth, "raises-%s/array-input" % type(v).__name__), {"loads": loads, "container": probe["container"], "message": str(v)[:200]})]
+        acc.count("gross-only shard: %s raised (not judged here)" % type(v).__name__)
+        return []
+    v = _flat(v)
+    if v.size != len(loads):
+        return [(_key(g, fmeth, "wrong-shape"), {"container": probe["container"], "size": int(v.size), "expected": len(loads)})]
+    for L, x in zip(loads, v.tolist()):
+        st0, v0 = _call(getattr(law, fmeth), float(L), T)
+        acc.evaluations += 1
+        if st0 != "ok":
+            continue
+        v0 = float(_flat(v0)[0])
+        acc.outcomes.add(hash((g["law"], g["branch"], "gross", round(v0, 6))))
+        if math.isfinite(x) and math.isfinite(v0) and abs(x - v0) > GROSS * max(abs(L), abs(v0)):
+            return [(_key(g, fmeth, "containers-disagree-grossly"), {"load": L, "container": probe["container"], "which": probe["which"],
+                                                                     "got": x, "python_float": v0, "K_p": g["K_p"]})]
+    return []
+
+
+def run_shard(shard):
+    acc = Acc()
+    if shard.get("gross_only"):
+        run_gross(shard, acc)
+        return acc
+    for T in shard["tolerances"]:
+        for branch, via in [(b, v) for b in BRANCHES for v in ("fresh", "setters")]:
+            g = {"law": shard["law"], "mat": shard["mat"], "K_p": shard["K_p"], "factors": shard["factors"], "T": T, "branch": branch, "via": via}
             law = _law(g)
             R = Ref(g)
             cache = {}
@@ -520,4 +613,6 @@ def run_shard(shard):
 
 def replay(case):
     g, probe = case["group"], case["probe"]
+    if probe["p"] == "gross":
+        return probe_gross(_law(g), g, probe, Acc())
     return run_probe(_law(g), g, Ref(g), probe, Acc(), None)
